@@ -81,7 +81,7 @@ def main():
         else:
             k = int(s.split('-')[1])
             kk = k - (1 if s.startswith('C14-') and k >= 9 else 0)  # C14 has one extra round-5 seed
-            rnd = 7 if kk >= 11 else (6 if kk >= 9 else (5 if kk >= 7 else (4 if kk >= 5 else None)))
+            rnd = 8 if kk >= 13 else 7 if kk >= 11 else (6 if kk >= 9 else (5 if kk >= 7 else (4 if kk >= 5 else None)))
             notes = open(os.path.join(d, 'notes.md')).read() if os.path.exists(os.path.join(d, 'notes.md')) else ''
             demo = open(os.path.join(d, 'demo_test.go')).read()
             pkg = re.search(r'^package (\w+)', demo, re.M).group(1)
